@@ -52,3 +52,15 @@ Definition mcopy_step (m : bytes) (dst src len : N) : res (N * bytes) :=
     let m' := if blen m <? newsize then m ++ zeros (N.to_nat (newsize - blen m)) else m in
     Ok (gas, mem_copy m' dst src len)
   end.
+
+(** the charge alone (what the interpreter computes BEFORE it touches memory: a frame that cannot pay never expands) *)
+Definition mcopy_gas (mlen dst src len : N) : res N :=
+  let '(size, ovf) := mcopy_mem_size dst src len in
+  if ovf then Err "gas uint64 overflow" else
+  let w := to_words size in
+  if two64 <=? w * 32 then Err "gas uint64 overflow" else
+  match memory_gas_cost mlen (w * 32) with
+  | Err e => Err "out of gas"
+  | Panic p => Panic p
+  | Ok expansion => Ok (3 + expansion + to_words len * 3)
+  end.
